@@ -2,6 +2,14 @@
 """Regenerates MANIFEST.json from the table below (single source of truth for the interface)."""
 import json
 CLAIMED = {
+ "C01": dict(tech="proptest + stratified enumeration of (operator, kind, form pair); metamorphic oracle matrix-op vs per-element scalar ops, exact big-integer/IEEE/rational scalar model, must-reject generator for incompatible shapes", sec="§3 C01",
+             text="Generated-input search over operator x kind x shape-class pairs (every dispatch arm of the dynamic configuration is hit and listed in the evidence) with three oracles: broadcast metamorphic relation, acceptance closure, rejection of incompatible shapes, plus an exact scalar arithmetic model."),
+ "C03": dict(tech="proptest-generated (shape, kind, index forms, in/out-of-range values) vs 1-based column-major reference model; supported-form baseline table", sec="§3 C03",
+             text="Generated-input search over storage form x element kind x index-form pair x in/out-of-range values against a column-major reference model; the source matrix is re-read after every access."),
+ "C11": dict(tech="proptest-generated tilings (row bands x blocks, scalar/vector/matrix blocks, inline or via variables, perturbed invalid variants) vs block-placement model", sec="§3 C11",
+             text="Generated-input search over tilings of results up to 4x4 (8x8 thorough) with position-distinct elements so any misplacement is visible; invalid variants must be rejected."),
+ "C12": dict(tech="exhaustive kind-pair and reshape enumeration + proptest values vs exact rational conversion model; supported-conversion baseline table", sec="§3 C12",
+             text="All 14x14 kind pairs and all equal-count reshapes up to 16 elements are enumerated; boundary/random values are generated; results are compared with an exact rational model (truncate/clamp, identity on representable values, column-major reshape, distinct-element sets)."),
  "C15": dict(tech="proptest-generated (kind,start,step,end) cases vs exact rational progression model", sec="§3 C15",
              text="Generated-input search: every run draws ranges per kind (on/off grid, near the kind maximum, zero/negative steps, empty/single) and compares the element sequence with an exact rational reference; failures are shrunk by proptest to a replay file."),
 }
